@@ -271,4 +271,7 @@ func runC05(p *P, r *R) {
 			r.ob("R05.5", p.fname(f)+": calls markNotWorking", p.ipos(ci), inFns(f, wh), true, "only the consumer's drain loop may clear the flag")
 		}
 	}
+	// R05.6 a polling event that arrives behind other events in one read is still handled: a handler tells the event loop
+	// to stop parsing only when it consumed nothing (its event is incomplete) (shared with C13 R13.5)
+	borrow(p, r, "C13", runC13, map[string]string{"R13.5": "R05.6"}, nil)
 }
